@@ -22,7 +22,7 @@ import (
 // Options tune a scenario.
 type Options struct {
 	AllowDupReset bool   // include the labelled "same root height repeated reset" action (C01 only)
-	MaxSegments   int    // upper bound on round segments (0 = 7)
+	MaxSegments   int    // upper bound on round segments (0 = 12)
 	CutSteps      int    // stop the scenario once this many simulator steps were taken (0 = never) - C15's GST
 	Families      string // restrict to families, e.g. "F3" (sensitivity experiments); "" = all
 	NoFinish      bool   // do not append the closing clean rounds
@@ -63,6 +63,7 @@ type gen struct {
 	dMode   string // default behaviour of Byzantine engines outside scripted rounds: "silent" | "honestlike"
 	noise   int    // 0 none, 1 light, 2 heavy (random redelivery / crafted replay)
 	dup     bool
+	pl      plan
 }
 
 func (g *gen) class(c string) { g.classes[c] = true }
@@ -211,26 +212,124 @@ func Run(t *rapid.T, opt Options) *Result {
 	return RunOn(t, opt, cfg, mode, g1, g2)
 }
 
+// plan is what a planned family fixes before the world exists: the views in which a Byzantine validator must be
+// electable (the adversary predicts the sortition) - the sortition seed of the case is searched accordingly.
+type plan struct {
+	k1, k2, k3 int
+	bump       bool
+	r1, r2, r3 uint64
+	rootB      uint64
+	ok         bool
+}
+
+func byzSet(cfg bs.Config) (b, h []int) {
+	for i, x := range cfg.Byz {
+		if x {
+			b = append(b, i)
+		} else {
+			h = append(h, i)
+		}
+	}
+	return
+}
+
+func anyByzLeadable(s *bs.Sim, root, round uint64, voters []int) bool {
+	for _, d := range s.Byzantine() {
+		if s.PlanLeader(root, round, d, voters).OK {
+			return true
+		}
+	}
+	return false
+}
+
+func honestLeadable(s *bs.Sim, root, round uint64, voters []int) (int, bool) {
+	var bz uint64
+	for _, b := range s.Byzantine() {
+		bz += s.Cfg.Power[b]
+	}
+	for _, l := range voters {
+		pl := s.PlanLeader(root, round, l, voters)
+		if pl.OK && pl.Votes-bz >= s.VS.MinimumMaj23 {
+			return l, true
+		}
+	}
+	return -1, false
+}
+
+// searchSeed looks for a sortition seed (deterministically derived from the drawn one) under which `feasible` holds.
+func searchSeed(cfg bs.Config, tries int, feasible func(s *bs.Sim) bool) (bs.Config, bool) {
+	base := cfg.Seed
+	for k := 0; k < tries; k++ {
+		cfg.Seed = base + uint64(k)*7919
+		s := bs.New(cfg)
+		ok := feasible(s)
+		s.Close()
+		if ok {
+			return cfg, true
+		}
+	}
+	cfg.Seed = base
+	return cfg, false
+}
+
 // RunOn plays a scenario for a given committee.
 func RunOn(t *rapid.T, opt Options, cfg bs.Config, mode string, g1, g2 []int) *Result {
-	s := bs.New(cfg)
-	s.StopAt = opt.CutSteps
-	res := &Result{S: s, Mode: mode, G1: g1, G2: g2}
-	g := &gen{t: t, s: s, opt: opt, res: res, byz: s.Byzantine(), honest: s.Honest(), classes: map[string]bool{}}
-	g.rng = rand.New(rand.NewPCG(rapid.Uint64().Draw(t, "netseed"), 0x5eed))
-	if g.opt.MaxSegments == 0 {
-		g.opt.MaxSegments = 7
-	}
 	fams := families
 	if opt.Families != "" {
 		fams = strings.Split(opt.Families, ",")
 	}
 	fam := rapid.SampledFrom(fams).Draw(t, "family")
-	if len(g.byz) == 0 && (fam == "F2" || fam == "F3" || fam == "F6") {
+	bz, hon := byzSet(cfg)
+	if len(bz) == 0 && (fam == "F2" || fam == "F3" || fam == "F6") {
 		fam = "F4"
 	}
 	if mode == "boundary" && rapid.IntRange(0, 2).Draw(t, "boundaryF6") > 0 {
 		fam = "F6"
+	}
+	var pl plan
+	switch fam {
+	case "F3":
+		pl.k1, pl.k2, pl.k3 = rapid.IntRange(0, 3).Draw(t, "k1"), rapid.IntRange(0, 2).Draw(t, "k2"), rapid.IntRange(0, 1).Draw(t, "k3")
+		pl.bump = rapid.Bool().Draw(t, "bumpBetween")
+		pl.r1 = uint64(pl.k1)
+		if pl.bump {
+			pl.rootB, pl.r2 = cfg.RootHeight+1, uint64(pl.k2)
+		} else {
+			pl.rootB, pl.r2 = cfg.RootHeight, pl.r1+1+uint64(pl.k2)
+		}
+		pl.r3 = pl.r2 + 1 + uint64(pl.k3)
+		cfg, pl.ok = searchSeed(cfg, 48, func(s *bs.Sim) bool {
+			if !anyByzLeadable(s, cfg.RootHeight, pl.r1, hon) {
+				return false
+			}
+			l, ok := honestLeadable(s, pl.rootB, pl.r2, hon)
+			if !ok {
+				return false
+			}
+			var rest []int
+			for _, i := range hon {
+				if i != l {
+					rest = append(rest, i)
+				}
+			}
+			return anyByzLeadable(s, pl.rootB, pl.r3, rest)
+		})
+	case "F2", "F6":
+		pl.k1 = rapid.IntRange(0, 2).Draw(t, "k1")
+		pl.bump = rapid.IntRange(0, 5).Draw(t, "bumpFirst") == 0
+		pl.r1, pl.rootB = uint64(pl.k1), cfg.RootHeight
+		if pl.bump {
+			pl.rootB++
+		}
+		cfg, pl.ok = searchSeed(cfg, 32, func(s *bs.Sim) bool { return anyByzLeadable(s, pl.rootB, pl.r1, hon) })
+	}
+	s := bs.New(cfg)
+	s.StopAt = opt.CutSteps
+	res := &Result{S: s, Mode: mode, G1: g1, G2: g2}
+	g := &gen{t: t, s: s, opt: opt, res: res, byz: s.Byzantine(), honest: s.Honest(), classes: map[string]bool{}, pl: pl}
+	g.rng = rand.New(rand.NewPCG(rapid.Uint64().Draw(t, "netseed"), 0x5eed))
+	if g.opt.MaxSegments == 0 {
+		g.opt.MaxSegments = 12
 	}
 	res.Family = fam
 	g.dMode = rapid.SampledFrom([]string{"silent", "honestlike"}).Draw(t, "byzDefault")
@@ -852,15 +951,14 @@ func (g *gen) famLossy() {
 
 // F2 / F6: equivocating leader, Byzantine validators vote for both proposals.
 func (g *gen) famEquivocate() {
-	for i := rapid.IntRange(0, 2).Draw(g.t, "pre"); i > 0 && !g.done(); i-- {
-		if rapid.Bool().Draw(g.t, "preKind") {
-			g.burn()
-		} else {
-			g.lossy()
-		}
+	g.classIf(!g.pl.ok, "plan:no-seed")
+	if g.pl.bump {
+		g.bump()
 	}
-	g.maybeBump(6)
-	d, ok := g.untilLeadable(3)
+	for i := g.pl.k1; i > 0 && !g.done(); i-- {
+		g.burn()
+	}
+	d, ok := g.untilLeadable(2)
 	if !ok {
 		g.class("byz-not-electable")
 		g.lossy()
@@ -872,33 +970,40 @@ func (g *gen) famEquivocate() {
 }
 
 // F3: withheld certificate, later re-proposed as HighQc, with / without a root bump in between, against replicas
-// locked on something else.
+// locked on something else. The views are planned (k1 burnt rounds, withhold, [bump], k2 burnt rounds, lock round
+// with partial commit, k3 burnt rounds, re-proposal) and the sortition seed was searched so that the plan is feasible.
 func (g *gen) famWithheld() {
-	for i := rapid.IntRange(0, 3).Draw(g.t, "k1"); i > 0 && !g.done(); i-- {
+	g.classIf(!g.pl.ok, "plan:no-seed")
+	for i := g.pl.k1; i > 0 && !g.done(); i-- {
 		g.burn()
 	}
-	d, ok := g.untilLeadable(3)
+	d, ok := g.untilLeadable(2)
 	if !ok {
 		g.class("byz-not-electable")
 		g.lossy()
 		return
 	}
 	g.byzRound(d, "withhold")
-	if rapid.Bool().Draw(g.t, "bumpBetween") {
-		g.bump()
+	if g.pl.bump {
+		g.script("bump-all")
+		g.bumps++
+		g.s.RootBumpAll()
 	}
-	for i := rapid.IntRange(0, 2).Draw(g.t, "k2"); i > 0 && !g.done(); i-- {
+	for i := g.pl.k2; i > 0 && !g.done(); i-- {
 		g.burn()
 	}
 	if g.done() {
 		return
 	}
 	g.lockRound(rapid.IntRange(0, 3).Draw(g.t, "allLock") > 0)
-	if rapid.IntRange(0, 3).Draw(g.t, "bumpAfterLock") == 0 {
+	if rapid.IntRange(0, 5).Draw(g.t, "bumpAfterLock") == 0 {
 		g.bump()
 	}
 	g.maybeDup()
-	d, ok = g.untilLeadable(3)
+	for i := g.pl.k3; i > 0 && !g.done(); i-- {
+		g.burn()
+	}
+	d, ok = g.untilLeadable(2)
 	if !ok {
 		g.class("byz-not-electable")
 		return
